@@ -1424,6 +1424,16 @@ class Interp:
                         lo = hi = "?"
                     if isinstance(lo, int) and lo >= 0 and (hi is None or (isinstance(hi, int) and hi < 0)):
                         tags = tags | {("rows-of", tg[1], tg[2] - lo + (hi or 0))}
+        rg_ = self.np.ring_of(base)
+        if rg_ is not None and kind in ("arr", "unknown"):
+            first_ = idx.items[0] if (idx.kind == "indextuple" and idx.items) else idx
+            full_ = first_.kind == "slice" and first_.extra is not None and first_.extra.lower is None and first_.extra.upper is None \
+                and first_.extra.step is None
+            if full_:
+                tags = frozenset(t_ for t_ in tags if not (isinstance(t_, tuple) and t_ and t_[0] == "ring")) | (
+                    {self.np.RING_POISON} if rg_ == self.np.RING_POISON else {("ring", rg_)})
+            elif first_.kind in ("slice", "idx", "idxlist", "arr", "unknown", "list"):
+                tags = tags | {self.np.RING_POISON}           # a selection / reordering of the rows: no longer aligned with the ring
         sl_ = self.np.shape_last(base)
         if sl_ and sl_[1] == 2 and kind in ("arr", "unknown"):
             if idx.kind == "slice" or idx.kind in ("idx", "idxlist"):
@@ -1548,6 +1558,14 @@ class Interp:
             sl_ = self.np.broadcast_last(l, r)
             if sl_:
                 out.tags = out.tags | {("shape-last", sl_[0], sl_[1])}
+        if out.kind in ("arr", "unknown"):
+            ru_ = self.np.ring_union([l, r])
+            if ru_ is not None:
+                self.np.with_ring(out, ru_)
+                if isinstance(op, ast.Div) and ru_ != self.np.RING_POISON:
+                    rn_, rd_ = self.np.ring_of(l), self.np.ring_of(r)
+                    if rn_ and rd_:
+                        out.tags = out.tags | {("quot-rings", rn_, rd_)}
         if isinstance(op, (ast.Add, ast.Sub)) and ("polar-angle" in l.tags or "polar-angle" in r.tags) and out.kind in ("arr", "unknown", "float"):
             out.tags = out.tags | {"polar-angle"}
         rl = {t for t in l.tags if isinstance(t, tuple) and t[0] == "rows-of"}
